@@ -726,6 +726,7 @@ func spaces(tier string) []kit.Space {
 			},
 		})
 	}
+	sps = append(sps, urlSpace(tier))
 	return sps
 }
 
@@ -741,7 +742,8 @@ func main() {
 		Rule: "seq.*: every sequence of length <= 4 (quick) / <= 5 (thorough) over 22 atoms (12 text atoms: a, space, tab, LF, CRLF, {, }, %, #, BOM, <b>, *; 10 syntax atoms: two comments, if/end, two raw blocks, {%% %%}, a value show, a render, a shebang line) in each of the 6 formats; " +
 			"sequences that are ill-nested, have the shebang atom after position 0, or whose adjacent atoms join into a delimiter ({{ {% {# #}) are classified and not built; a case is non-trivial when it builds, runs and contains at least one syntax atom. Indices enumerate distinct atom sequences (mixed radix). " +
 			"loop.*: every sequence of length <= 5 (quick) / <= 6 (thorough) over 13 atoms (a, space, LF, comment, if, end, marked raw block, value show, render, and three loops that run their body exactly twice: a three-clause for, a for range over a two-element slice, and a condition-less {% for %} — with its own closing atom that holds the break guard, so that body text directly follows {% for %}; loops nest freely) in each of the 6 formats; sequences without a loop atom are classified and not built; " +
-			"a loop case is non-trivial when it builds, runs and some literal byte or printing token is inside a loop body",
+			"a loop case is non-trivial when it builds, runs and some literal byte or printing token is inside a loop body. " +
+			"url.html: every HTML document with one URL attribute, or two joined in 4 ways (adjacent tags, text between, a show between, same tag), each attribute quoted (<a href=\"…\">) or unquoted (<img src=…>) with every content of length <= 2 (quick) / <= 3 (thorough) over 6 pieces (text /x/, ?p=, &; shows of \"v\", \"a?b\", \"a?b&\"); non-trivial when the document and its attributes alone build and run",
 		Assumptions: []string{
 			"whitespace = space, tab, CR, LF; a line ends at LF (also inside raw content); CR occurs only as CRLF",
 			"a value show may print v or \"v\" and the render P or \"P\" (the context decides the quoting, which C06-C08 check)",
@@ -749,6 +751,7 @@ func main() {
 			"a statement-only last line without a newline may or may not be removed; blank lines (no token) must be preserved",
 			"the shebang line's text must not be emitted; its newline may or may not be",
 			"raw block contents start and end with a non-space byte, so the raw markers share their line with content",
+			"url.html: what a URL attribute's content renders to is taken from the document that has that attribute alone (differential); the absolute clause is only (a): literal bytes appear in order and unchanged, where — observed, not documented in the repository — inside a URL the text right after a value containing ? loses a leading ? and may get &amp; inserted before it, so that one ? is optional and insertions are not judged",
 			"the elements of a loop body occur exactly twice, in order, each occurrence under the same per-line rules (the rules are labels of source bytes); optional whitespace may be kept in one iteration and dropped in the other; a line holding only one loop statement follows (e); the condition-less loop's guard statements (in its closing atom) make every line they are on a line with several statements, constrained by (a)-(d) only",
 		},
 		Spaces: spaces,
